@@ -51,32 +51,36 @@ type Fault struct {
 }
 
 type Scenario struct {
-	Name      string        `json:"name"`
-	Transport string        `json:"transport"`
-	Closer    string        `json:"closer"` // client | server
-	N         int           `json:"n"`
-	Delta     time.Duration `json:"delta"`
-	PeerN     int           `json:"peer_n"`     // bytes the peer writes concurrently (both directions carry data)
-	Latency   time.Duration `json:"latency"`    // one-way latency (udp)
-	Fault     Fault         `json:"fault"`
-	ReadStall time.Duration `json:"read_stall"` // peer application starts reading this long after accepting
-	ReadPause time.Duration `json:"read_pause"` // pause between the peer's Read calls
-	TCPCap    int           `json:"tcp_cap"`    // bounded in-flight buffer of the closer->peer TCP direction
-	TCPRate   int           `json:"tcp_rate"`   // bytes per second of the closer->peer TCP direction (0 = unlimited)
-	Seed      uint64        `json:"seed"`
+	Name           string        `json:"name"`
+	Transport      string        `json:"transport"`
+	Closer         string        `json:"closer"` // client | server
+	N              int           `json:"n"`
+	Delta          time.Duration `json:"delta"`
+	PeerN          int           `json:"peer_n"`  // bytes the peer writes concurrently (both directions carry data)
+	Latency        time.Duration `json:"latency"` // one-way latency (udp)
+	Fault          Fault         `json:"fault"`
+	Writes         int           `json:"writes"` // > 0: the closer performs this many Writes of WriteSize bytes each (one segment per Write); N = Writes*WriteSize
+	WriteSize      int           `json:"write_size"`
+	ReadAfterClose bool          `json:"read_after_close"` // the peer application does not read before the closer's Close has returned (or ReadStall has passed, if > 0)
+	ReadStall      time.Duration `json:"read_stall"`       // peer application starts reading this long after accepting
+	ReadPause      time.Duration `json:"read_pause"`       // pause between the peer's Read calls
+	TCPCap         int           `json:"tcp_cap"`          // bounded in-flight buffer of the closer->peer TCP direction
+	TCPRate        int           `json:"tcp_rate"`         // bytes per second of the closer->peer TCP direction (0 = unlimited)
+	Seed           uint64        `json:"seed"`
 }
 
 type Result struct {
-	Wrote     int
-	WriteErr  string
-	CloseDur  time.Duration
-	Read      int
-	PrefixOK  bool
-	ReadErr   string // "" = clean EOF
-	Hang      bool
-	Class     string // COMPLETE TRUNCATED_EOF ERROR HANG WRITE_FAILED CORRUPT
-	Facts     Facts
-	VirtualMs int64
+	Wrote               int
+	WriteErr            string
+	CloseDur            time.Duration
+	Read                int
+	PrefixOK            bool
+	ReadErr             string // "" = clean EOF
+	Hang                bool
+	Class               string // COMPLETE TRUNCATED_EOF ERROR HANG WRITE_FAILED CORRUPT
+	Facts               Facts
+	VirtualMs           int64
+	ReadBeganAfterClose bool // receiver-backlog scenarios: the peer application's first Read came after the closer's Close had returned
 }
 
 // Facts is what the network trace says about the closer->peer direction.
@@ -91,6 +95,7 @@ type Facts struct {
 	Have            []int // seqs < closeSeq the peer endpoint had received before it received the first close request (sorted)
 	InOrder         int   // length of the in-order prefix of Have
 	PayloadAt       []int // cumulative payload bytes after seq i (for converting bytes read into segments)
+	MinPeerWindow   int   // UDP: smallest receive window the peer advertised before it received the close request (-1 = none seen)
 }
 
 func pat(seed uint64, i int) byte { return byte(uint64(i)*131 + uint64(i>>8)*17 + seed*29 + 7) }
@@ -270,6 +275,7 @@ func runScenario(sc Scenario) Result {
 	}
 	peerDone := make(chan peerOut, 1)
 	closerDone := make(chan struct{})
+	closeReturned := make(chan struct{})
 	var peerConn net.Conn
 	var peerMu sync.Mutex
 
@@ -283,7 +289,19 @@ func runScenario(sc Scenario) Result {
 				c.Write(peerData)
 			}()
 		}
-		if sc.ReadStall > 0 {
+		if sc.ReadAfterClose {
+			// busy elsewhere until the closer's Close has returned (receiver backlog); ReadStall bounds the pause
+			limit := sc.ReadStall
+			if limit <= 0 {
+				limit = 120 * time.Second
+			}
+			select {
+			case <-closeReturned:
+				res.ReadBeganAfterClose = true
+				time.Sleep(20 * time.Millisecond)
+			case <-time.After(limit):
+			}
+		} else if sc.ReadStall > 0 {
 			time.Sleep(sc.ReadStall)
 		}
 		k, ok, e := readUntilEnd(c, sc.Seed, sc.ReadPause)
@@ -302,14 +320,30 @@ func runScenario(sc Scenario) Result {
 				}
 			}()
 		}
-		w, err := c.Write(data)
-		res.Wrote, res.WriteErr = w, errName(err)
+		if sc.Writes > 0 {
+			// many small writes, each checked: one segment per Write
+			for i := 0; i < sc.Writes; i++ {
+				w, err := c.Write(data[i*sc.WriteSize : (i+1)*sc.WriteSize])
+				res.Wrote += w
+				if err != nil || w != sc.WriteSize {
+					res.WriteErr = errName(err)
+					if res.WriteErr == "" {
+						res.WriteErr = "SHORT"
+					}
+					break
+				}
+			}
+		} else {
+			w, err := c.Write(data)
+			res.Wrote, res.WriteErr = w, errName(err)
+		}
 		if sc.Delta > 0 {
 			time.Sleep(sc.Delta)
 		}
 		tc := time.Now()
 		c.Close()
 		res.CloseDur = time.Since(tc)
+		close(closeReturned)
 	}
 
 	if closerIsClient {
@@ -399,7 +433,7 @@ func runScenario(sc Scenario) Result {
 
 // facts abstracts the network trace of the closer->peer direction.
 func facts(sc Scenario, ev []simnet.Event) Facts {
-	f := Facts{CloseSeq: -1}
+	f := Facts{CloseSeq: -1, MinPeerWindow: -1}
 	creds := []trace.Cred{{User: user, Pass: pass}}
 	closerIsClient := sc.Closer == "client"
 	serverAddr := "192.0.2.1:8964"
@@ -421,6 +455,11 @@ func facts(sc Scenario, ev []simnet.Event) Facts {
 			}
 			fromCloser := (u.Dst == serverAddr) == closerIsClient
 			if !fromCloser {
+				if m := u.Seg.Meta; u.Kind == "send" && !closeDelivered && (m.IsData() || m.IsAck()) {
+					if f.MinPeerWindow < 0 || int(m.WindowSize) < f.MinPeerWindow {
+						f.MinPeerWindow = int(m.WindowSize)
+					}
+				}
 				continue
 			}
 			m := u.Seg.Meta
@@ -534,6 +573,20 @@ func emptySegs(f Facts) []int {
 // signature computes the cause signature of a (strict prefix, clean EOF) outcome from the trace.
 func signature(sc Scenario, res Result) string {
 	f := res.Facts
+	// everything the closer wrote reached the peer's endpoint before the close request did, and the peer application
+	// had a backlog of unread segments at that moment: the data was lost inside the receiver
+	backlog := sc.ReadAfterClose && f.PayloadSent >= sc.N && f.InOrder >= f.NSeg
+	// UDP: the peer holds at most segmentTreeCapacity segments in recvBuf + recvQueue; while its application has read nothing,
+	// every further datagram is dropped by the receive-window test of inputData although it arrived
+	windowFull := f.MinPeerWindow == 0 || (res.ReadBeganAfterClose && f.InOrder > protocol.VerifC03SegmentTreeCapacity)
+	if backlog && sc.Transport == "udp" && windowFull {
+		// the peer's receive window was exhausted (recvBuf + recvQueue = segmentTreeCapacity): inputData dropped a datagram
+		// that had arrived, the closer had already discarded sendBuf, the close request was then acted upon
+		return "udp-receive-window-full-data-dropped-before-close"
+	}
+	if backlog {
+		return "receiver-backlog-close-overtakes-queued-data-" + sc.Transport
+	}
 	if sc.Transport == "tcp" {
 		if f.PayloadSent < sc.N {
 			return "close-wait-expired-backpressure-tcp"
@@ -578,7 +631,7 @@ var dbg *os.File
 func main() {
 	r := vh.Start("c03")
 	defer r.Finish()
-	r.Rep.Rule = "one scenario = one session of a real Mux pair on simnet (faketime): closer in {client, server} writes n in {0,1,1 KiB,100 KiB,1 MiB,...} bytes, waits delta in {0,1 ms,100 ms,2 s,5 s}, closes; peer reads to EOF/error. Faults: none; every single-fault position (drop/dup/delay of each sequenced datagram and of the close request) for small UDP transfers; sustained loss 5..30 %; UDP latency up to 150 ms; TCP bounded buffer / bandwidth limit; slow or stalled reader; data in both directions. Non-trivial/distinct = distinct (transport, closer, size class, delta, fault kind, fault position class, outcome class) tuples"
+	r.Rep.Rule = "one scenario = one session of a real Mux pair on simnet (faketime): closer in {client, server} writes n in {0,1,1 KiB,100 KiB,1 MiB,...} bytes, waits delta in {0,1 ms,100 ms,2 s,5 s}, closes; peer reads to EOF/error. Faults: none; every single-fault position (drop/dup/delay of each sequenced datagram and of the close request) for small UDP transfers; sustained loss 5..30 %; UDP latency up to 150 ms; TCP bounded buffer / bandwidth limit; slow or stalled reader; data in both directions; receiver backlog (255..6000 one-segment writes of 1..16 bytes around the capacities of recvChan 256 and recvQueue 4096, reader paused until the closer's Close has returned or until T). Non-trivial/distinct = distinct (transport, closer, size class, delta, fault kind, fault position class, outcome class) tuples"
 	dbg, _ = os.Create(r.Out + "/scenarios.txt")
 	defer dbg.Close()
 
@@ -603,9 +656,9 @@ func main() {
 func runOne(r *vh.Run, sc Scenario) {
 	res := runScenario(sc)
 	f := res.Facts
-	fmt.Fprintf(dbg, "%-40s %s closer=%s n=%d delta=%v -> %s wrote=%d/%s read=%d rerr=%q closeDur=%v virt=%dms nseg=%d closeSeq=%d sentBefore=%d sentEver=%d payloadSent=%d closeSent=%d closeDelivered=%v inorder=%d have=%s\n",
+	fmt.Fprintf(dbg, "%-40s %s closer=%s n=%d delta=%v -> %s wrote=%d/%s read=%d rerr=%q closeDur=%v virt=%dms nseg=%d closeSeq=%d sentBefore=%d sentEver=%d payloadSent=%d closeSent=%d closeDelivered=%v inorder=%d minPeerWin=%d have=%s\n",
 		sc.Name, sc.Transport, sc.Closer, sc.N, sc.Delta, res.Class, res.Wrote, res.WriteErr, res.Read, res.ReadErr, res.CloseDur, res.VirtualMs,
-		f.NSeg, f.CloseSeq, f.SentBeforeClose, f.SentEver, f.PayloadSent, f.CloseSent, f.CloseDelivered, f.InOrder, ranges(f.Have))
+		f.NSeg, f.CloseSeq, f.SentBeforeClose, f.SentEver, f.PayloadSent, f.CloseSent, f.CloseDelivered, f.InOrder, f.MinPeerWindow, ranges(f.Have))
 	r.Count("transport=" + sc.Transport)
 	r.Count("closer=" + sc.Closer)
 	r.Count("fault=" + sc.Fault.Kind)
@@ -624,7 +677,7 @@ func runOne(r *vh.Run, sc Scenario) {
 			failOnce(r, "session-not-established-without-faults", "the session could not be set up on a fault-free network: "+res.Class, sc, res)
 		}
 	case "HANG":
-		if sc.Fault.Kind == "none" && sc.ReadStall == 0 {
+		if sc.Fault.Kind == "none" && sc.ReadStall == 0 && !sc.ReadAfterClose {
 			failOnce(r, "peer-never-sees-end-without-faults", "no EOF or error within 900 virtual seconds on a fault-free network", sc, res)
 		}
 	}
@@ -641,7 +694,11 @@ func runOne(r *vh.Run, sc Scenario) {
 	if f.CloseDelivered {
 		cd = 1
 	}
-	caseLine := fmt.Sprintf("S %s %d %d %d %s %s", tr, f.NSeg, f.SentBeforeClose, cd, ranges(f.Have), ranges(emptySegs(f)))
+	eager := 1
+	if sc.ReadAfterClose && res.ReadBeganAfterClose {
+		eager = 0 // the peer application read nothing before the closer's Close had returned
+	}
+	caseLine := fmt.Sprintf("S %s %d %d %d %s %s %d", tr, f.NSeg, f.SentBeforeClose, cd, ranges(f.Have), ranges(emptySegs(f)), eager)
 	var impl string
 	switch res.Class {
 	case "COMPLETE", "TRUNCATED_EOF":
